@@ -380,7 +380,7 @@ func c11pDial(p *proxy) *c11pClient {
 }
 
 func (c *c11pClient) roundTrip(rq c11pReq, corr int32) ([]byte, error) {
-	_ = c.conn.SetDeadline(time.Now().Add(10 * time.Second))
+	_ = c.conn.SetDeadline(time.Now().Add(120 * time.Second))
 	if err := protocol.WriteFrame(c.conn, c11pFramePayload(rq, corr)); err != nil {
 		return nil, err
 	}
